@@ -441,15 +441,138 @@ theorem nan_mismatch_rejected (m : Method) (o : Obj) (rows : List (List (Option 
   unfold bootNoiseCeilingO cvNoiseCeilingO
   simp [h]
 
-/-! ## what is not proved (kept as statements) -/
+/-! ## 7. the generated leaves, the `_nonzero` guard, whitened invariance -/
 
-/-- rescaling invariance of the *whitened* ceilings (`cosine_cov`, `corr_cov`): needs linearity of
-    the solver; exercised by the oracle on the real code only -/
-def ceiling_invariant_whitened_full : Prop :=
-  ∀ (V : List (List ℝ)) (rows rows' : List (List ℝ)) (o : Obj),
-    List.Forall₂ (fun r r' => ∃ k : ℝ, 0 < k ∧ r' = r.map (· * k)) rows rows' →
+/-- the scalar text of `pool_rdm` in `util/inference_util.py` and `util/pooling.py`, regenerated from
+    the source on every run: division by the norm, mean removal, shift by the minimum (`+ 0.01` in
+    `util/pooling.py`); the whitened branches repeat the plain text -/
+theorem leaf_texts (x v : ℝ) :
+    Rsa.Gen.C07.cosScale x v = x / v ∧ Rsa.Gen.C07.cosCovScale x v = x / v ∧
+    Rsa.Gen.C07.corrCenter x v = x - v ∧ Rsa.Gen.C07.corrCovCenter x v = x - v ∧
+    Rsa.Gen.C07.corrScale x v = x / v ∧ Rsa.Gen.C07.corrCovScale x v = x / v ∧
+    Rsa.Gen.C07.corrShift x v = x - v ∧ Rsa.Gen.C07.corrCovShift x v = x - v ∧
+    Rsa.Gen.C07.poolingCosScale x v = x / v ∧ Rsa.Gen.C07.poolingCorrCenter x v = x - v ∧
+    Rsa.Gen.C07.poolingCorrScale x v = x / v ∧ Rsa.Gen.C07.poolingCorrShift x v = x - v + 1 / 100 ∧
+    Rsa.Gen.C07.poolingCosCovScale x v = x / v ∧ Rsa.Gen.C07.poolingCorrCovScale x v = x / v ∧
+    Rsa.Gen.C07.poolingCorrCovShift x v = x - v + 1 / 100 := by
+  refine ⟨rfl, rfl, rfl, rfl, rfl, rfl, rfl, rfl, rfl, rfl, rfl, ?_, rfl, rfl, ?_⟩ <;>
+  · simp [Rsa.Gen.C07.poolingCorrShift, Rsa.Gen.C07.poolingCorrCovShift]
+
+/-- the shift of the correlation pools is a translation: immaterial for every correlation -/
+theorem pool_shift_is_translation (x : List ℝ) (v : ℝ) :
+    center (x.map (fun a => Rsa.Gen.C07.corrShift a v)) = center x ∧
+    center (x.map (fun a => Rsa.Gen.C07.poolingCorrShift a v)) = center x := by
+  constructor
+  · exact center_map_sub_const x v
+  · have : x.map (fun a => Rsa.Gen.C07.poolingCorrShift a v) = x.map (· - (v - 1 / 100)) := by
+      apply List.map_congr_left; intro a _
+      simp [Rsa.Gen.C07.poolingCorrShift]; ring
+    rw [this]; exact center_map_sub_const x _
+
+/-- **the `_nonzero` guard has no scale threshold**: every positive norm, however small, is used as
+    it is, and the normalised RDM is the same for every positive rescaling (and shift, for the
+    correlation normaliser) of the RDM — a data RDM in other units cannot drop out of the pool -/
+theorem normaliser_has_no_scale_threshold (x : List ℝ) (k b : ℝ) (hk : 0 < k) :
+    (∀ s : ℝ, 0 < s → nonzero s = s) ∧
+    applyD cosF (x.map (· * k)) = applyD cosF x ∧
+    applyD corrF (x.map (fun a => k * a + b)) = applyD corrF x := by
+  refine ⟨fun s hs => nonzero_of_pos hs, applyD_cosF_scale x k hk, ?_⟩
+  rw [applyD_corrF, applyD_corrF, center_map_affine, applyD_cosF_scale _ k hk]
+
+theorem cosS_swap (b X Y : ℝ) : cosS b X Y = cosS b Y X := by
+  unfold cosS
+  by_cases h : 0 < Real.sqrt X ∧ 0 < Real.sqrt Y
+  · rw [if_pos h, if_pos h.symm, div_right_comm]
+  · rw [if_neg h, if_neg (fun h' => h h'.symm)]
+
+theorem cosB_smul_right {p : ℕ} {B : List ℝ → List ℝ → ℝ} (h : IPForm p B) (x y : List ℝ) (k : ℝ)
+    (hk : 0 < k) (hx : x.length = p) (hy : y.length = p) :
+    cosB B x (y.map (· * k)) = cosB B x y := by
+  have hl : (y.map (· * k)).length = p := by simpa using hy
+  unfold cosB
+  rw [h.smul_right y x k hy hx, h.smul_left y _ k hy hl, h.smul_right y y k hy hy, cosS_swap,
+    cosS_swap (B x y)]
+  have : k * (k * B y y) = k * k * B y y := by ring
+  rw [this]
+  exact cosS_scale _ _ _ k hk
+
+theorem wsim_nil_left (V : List (List ℝ)) (y : List ℝ) : wsim V [] y = 0 := by
+  rw [wsim_eq_cosB]
+  unfold cosB cosS wform
+  simp
+
+theorem forall₂_left_length {ρ : List ℝ → List ℝ → Prop} {p : ℕ} {l l' : List (List ℝ)}
+    (h : List.Forall₂ (fun r r' => r.length = p ∧ ρ r r') l l') : ∀ r ∈ l, r.length = p := by
+  induction h with
+  | nil => intro r hr; simp at hr
+  | cons hab _ ih =>
+    intro r hr
+    rcases List.mem_cons.mp hr with rfl | hr
+    · exact hab.1
+    · exact ih r hr
+
+/-- whitened cosine (`cosine_cov`): both bounds are invariant when every data RDM is multiplied by
+    its own positive constant — for every symmetric positive definite `V` on which `Compare.solve`
+    meets the solver contract (any grouping) -/
+theorem ceiling_scale_invariant_whitened {V : List (List ℝ)} {p : ℕ} (hV : SymPosDef V p)
+    (hsol : IsSolver V p (solve V)) (rows rows' : List (List ℝ)) (o : Obj)
+    (h : List.Forall₂ (fun r r' => r.length = p ∧ ∃ k : ℝ, 0 < k ∧ r' = r.map (· * k)) rows rows') :
     bootNoiseCeilingG (poolD .cosineCov) (simV .cosineCov V) rows o
-      = bootNoiseCeilingG (poolD .cosineCov) (simV .cosineCov V) rows' o
+      = bootNoiseCeilingG (poolD .cosineCov) (simV .cosineCov V) rows' o := by
+  have hform := ipForm_whitened hV hsol
+  apply bootG_congr (fun r r' => r.length = p ∧ ∃ k : ℝ, 0 < k ∧ r' = r.map (· * k))
+    (fun a a' => a = a' ∧ (a.length = p ∨ a = [])) _ _ _ _ _ _ rows rows' h
+  · intro l l' hl
+    have hlen := forall₂_left_length hl
+    have heq : poolD .cosineCov l = poolD .cosineCov l' := by
+      show meanRows (l.map (applyD cosF)) = meanRows (l'.map (applyD cosF))
+      congr 1
+      apply map_eq_of_forall₂ hl
+      rintro b b' ⟨_, k, hk, rfl⟩
+      exact (applyD_cosF_scale b k hk).symm
+    refine ⟨heq, ?_⟩
+    by_cases hz : l = []
+    · right; subst hz; rfl
+    · left; exact poolD_length _ p l hz hlen
+  · rintro a a' b b' ⟨rfl, ha⟩ ⟨hb, k, hk, rfl⟩
+    show wsim V a b = wsim V a (b.map (· * k))
+    rcases ha with ha | rfl
+    · rw [wsim_eq_cosB, wsim_eq_cosB, cosB_smul_right hform a b k hk ha hb]
+    · rw [wsim_nil_left, wsim_nil_left]
+
+/-- whitened correlation (`corr_cov`): invariance under `r ↦ k·r + b` with own `k > 0`, `b` per RDM -/
+theorem ceiling_affine_invariant_whitened {V : List (List ℝ)} {p : ℕ} (hV : SymPosDef V p)
+    (hsol : IsSolver V p (solve V)) (rows rows' : List (List ℝ)) (o : Obj)
+    (h : List.Forall₂ (fun r r' => r.length = p ∧ ∃ k b : ℝ, 0 < k ∧ r' = r.map (fun a => k * a + b))
+      rows rows') :
+    bootNoiseCeilingG (poolD .corrCov) (simV .corrCov V) rows o
+      = bootNoiseCeilingG (poolD .corrCov) (simV .corrCov V) rows' o := by
+  have hform := ipForm_whitened hV hsol
+  apply bootG_congr (fun r r' => r.length = p ∧ ∃ k b : ℝ, 0 < k ∧ r' = r.map (fun a => k * a + b))
+    (fun a a' => a = a' ∧ (a.length = p ∨ a = [])) _ _ _ _ _ _ rows rows' h
+  · intro l l' hl
+    have hlen := forall₂_left_length hl
+    have heq : poolD .corrCov l = poolD .corrCov l' := by
+      show applyD shiftF (meanRows (l.map (applyD corrF)))
+        = applyD shiftF (meanRows (l'.map (applyD corrF)))
+      congr 2
+      apply map_eq_of_forall₂ hl
+      rintro r r' ⟨_, k, b, hk, rfl⟩
+      rw [applyD_corrF, applyD_corrF, center_map_affine, applyD_cosF_scale _ k hk]
+    refine ⟨heq, ?_⟩
+    by_cases hz : l = []
+    · right; subst hz; rfl
+    · left; exact poolD_length _ p l hz hlen
+  · rintro a a' r r' ⟨rfl, ha⟩ ⟨hr, k, b, hk, rfl⟩
+    show wsim V (center a) (center r) = wsim V (center a) (center (r.map (fun x => k * x + b)))
+    rw [center_map_affine]
+    rcases ha with ha | rfl
+    · rw [wsim_eq_cosB, wsim_eq_cosB, cosB_smul_right hform _ _ k hk
+        (by rw [center_length]; exact ha) (by rw [center_length]; exact hr)]
+    · have : center ([] : List ℝ) = [] := rfl
+      rw [this, wsim_nil_left, wsim_nil_left]
+
+/-! ## what is not proved (kept as a statement) -/
 
 /-- the NaN bridge for `cv_noise_ceiling` (pattern subsets of masked vectors): correspondence only -/
 def cv_ignores_common_nan_full : Prop :=
